@@ -22,13 +22,6 @@ pub mod io {
 }
 pub use io::{Error, ErrorKind};
 
-// ASSUMED: std::cmp::min on usize (the only instantiation the extracted code uses)
-pub mod cmp {
-    use vstd::prelude::*;
-    #[verifier::external_body]
-    pub fn min(a: usize, b: usize) -> (r: usize) ensures r == (if a <= b { a } else { b }) { unimplemented!() }
-}
-
 // UTF-8 bytes of a String (uninterpreted; related to other things only through the stand-ins that mention it)
 pub uninterp spec fn string_bytes(s: String) -> Seq<u8>;
 
